@@ -86,9 +86,9 @@ impl<'a> DatabaseTransaction for MockTx<'a> {
     }
 }
 
-pub fn admission<S: Src>(s: &mut S) {
+pub fn admission<S: Src, const GENESIS: bool>(s: &mut S) {
     let block_height = s.u32();
-    let genesis = s.bool();
+    let genesis = GENESIS;
     let db = MockDb {
         height_kind: s.u8() % 3,
         height: s.u32(),
@@ -137,7 +137,7 @@ pub fn admission<S: Src>(s: &mut S) {
     }
     vassert!(db.commits.load(Relaxed) == 0, "C08 preparing an import never commits; a failed import leaves the database unchanged");
     vreach!();
-    vreach!(r.is_ok() && !genesis, "C08 admission of a PoA block reachable");
+    vreach!(r.is_ok(), "C08 admission reachable");
     std::mem::forget(r);
     std::mem::forget(sealed);
 }
@@ -146,15 +146,20 @@ pub fn admission<S: Src>(s: &mut S) {
 mod proofs {
     use super::*;
     use crate::vsrc::KaniSrc;
-
-    #[kani::proof]
-    #[kani::stub(std::rt::thread_cleanup, crate::noop)]
-    #[kani::stub(fuel_core_types::blockchain::header::BlockHeaderV1::recalculate_metadata, crate::noop_header)]
-    #[kani::stub(std::fmt::format, crate::fmt_stub)]
-    #[kani::stub(std::backtrace::Backtrace::capture, crate::bt_disabled)]
-    #[kani::stub(std::hash::RandomState::new, crate::fixed_random_state)]
-    #[kani::unwind(4)]
-    fn c08_admission() {
-        admission(&mut KaniSrc);
+    macro_rules! proof {
+        ($name:ident, $g:expr) => {
+            #[kani::proof]
+            #[kani::stub(std::rt::thread_cleanup, crate::noop)]
+            #[kani::stub(fuel_core_types::blockchain::header::BlockHeaderV1::recalculate_metadata, crate::noop_header)]
+            #[kani::stub(std::fmt::format, crate::fmt_stub)]
+            #[kani::stub(std::backtrace::Backtrace::capture, crate::bt_disabled)]
+            #[kani::stub(std::hash::RandomState::new, crate::fixed_random_state)]
+            #[kani::unwind(4)]
+            fn $name() {
+                admission::<_, $g>(&mut KaniSrc);
+            }
+        };
     }
+    proof!(c08_admission_poa, false);
+    proof!(c08_admission_genesis, true);
 }
